@@ -251,3 +251,184 @@ Definition incl_str (a b : list str) : bool := forallb (fun x => mem_str x b) a.
 Definition table_eqb (a b : table) : bool :=
   list_eqb row_eqb (t_rows a) (t_rows b)
   && incl_str (t_required a) (t_required b) && incl_str (t_required b) (t_required a).
+
+(* ======================================================================================================
+   Members: leaves whose default the DECLARATION may override, and dataclass-typed members (one nested
+   sub-group).  The override is given as  default=<instance>  (dataclass style),  default=<dict>  (class style:
+   add_class_arguments(..., default=...), _signatures.py:113-132) or as the plain default= of each add_argument
+   (dotted / inner-parser styles).  The signature styles first add every parameter with its SIGNATURE default and
+   then run  parser.set_defaults  over the mapping (_core.py:190-216): entries in order, the action found by
+   dest, a whole-group (_ActionConfigLoad) entry expanded recursively, then the NEXT entry.
+   ====================================================================================================== *)
+Record ofield := { o_field : field; o_over : option val }.
+(* mdef: the dataclass-typed member has a default instance (default_factory) in the signature *)
+Inductive member := MLeaf (o : ofield) | MSub (name : str) (sub : list ofield) (mdef : bool).
+
+Definition isSome {A} (o : option A) : bool := match o with Some _ => true | None => false end.
+
+Definition onorm (l : list ofield) : list ofield :=
+  flat_map (fun o => map (fun f => {| o_field := f; o_over := o_over o |}) (sig_norm (o_field o))) l.
+Definition mnorm (ms : list member) : list member :=
+  flat_map (fun m => match m with
+                     | MLeaf o => map MLeaf (onorm [o])
+                     | MSub n sub d => [MSub n (onorm sub) d]
+                     end) ms.
+
+(* the field as the add_argument styles declare it: the overriding default in place of the signature's *)
+Definition eff (o : ofield) : field :=
+  match o_over o with
+  | Some v => {| f_name := f_name (o_field o); f_ty := f_ty (o_field o); f_default := Dflt v |}
+  | None => o_field o
+  end.
+Definition prefixed (n : str) (f : field) : field :=
+  {| f_name := n ++ [c_dot] ++ f_name f; f_ty := f_ty f; f_default := f_default f |}.
+(* the leaves of the (normalised) members with their dotted paths below the group key *)
+Definition flat (ms : list member) : list field :=
+  flat_map (fun m => match m with
+                     | MLeaf o => [eff o]
+                     | MSub n sub _ => map (fun o => prefixed n (eff o)) sub
+                     end) ms.
+
+(* ---- style 1 ---- *)
+Definition as_dotted_m (gk : str) (nms : list member) : table := as_dotted gk (flat nms).
+
+(* ---- style 4: the inner parser holds a nested ActionParser per sub-group ---- *)
+Definition tcat (a b : table) : table :=
+  {| t_rows := t_rows a ++ t_rows b; t_required := t_required a ++ t_required b |}.
+Definition inner_member (m : member) : table :=
+  match m with
+  | MLeaf o => inner_table [eff o]
+  | MSub n sub _ => move_parser_actions_fixed (dashes ++ n) (inner_table (map eff sub))
+  end.
+Definition inner_table_m (nms : list member) : table :=
+  fold_right (fun m acc => tcat (inner_member m) acc) {| t_rows := []; t_required := [] |} nms.
+Definition as_inner_parser_m (opt : str) (nms : list member) : table :=
+  move_parser_actions_fixed opt (inner_table_m nms).
+
+(* ---- styles 2 and 3 ---- *)
+Definition member_rows (nk : str) (m : member) : list (row * bool) :=
+  match m with
+  | MLeaf o => sig_param nk (o_field o)
+  | MSub n sub _ =>
+      let k := nk ++ [c_dot] ++ n in
+      map (fun r => (r, false)) (create_group k (negb (Nat.eqb (length sub) 0)))
+      ++ flat_map (sig_param k) (map o_field sub)
+  end.
+
+Definition dflt_val (f : field) : option val := match f_default f with Dflt v => Some v | NoDefault => None end.
+
+(* what the default= mapping holds for one (normalised) parameter: the override; with a complete mapping (an
+   instance, or a dict naming every member) the signature default elsewhere *)
+Definition oentry (full : bool) (o : ofield) : list (str * val) :=
+  match o_over o with
+  | Some v => [(f_name (o_field o), v)]
+  | None => if full then match dflt_val (o_field o) with Some v => [(f_name (o_field o), v)] | None => [] end else []
+  end.
+Definition mentry (full : bool) (m : member) : list (str * val) :=
+  match m with
+  | MLeaf o => oentry full o
+  | MSub n sub _ => let l := flat_map (oentry full) sub in
+                    if full || negb (is_nil l) then [(n, VDict l)] else []
+  end.
+(* defaults = {prefix + k: v}  with prefix = nested_key + "."  (the RAW nested key) *)
+Definition with_prefix (k : str) (es : list (str * val)) : list (str * val) :=
+  map (fun e => (k ++ [c_dot] ++ fst e, snd e)) es.
+Definition entries (full : bool) (nk : str) (nms : list member) : list (str * val) :=
+  with_prefix nk (flat_map (mentry full) nms).
+(* a member's default instance: the nested add_class_arguments(Sub, nk.n, default=Sub()) sets every sub-parameter's
+   default (to the signature's value) through set_defaults as well *)
+Definition member_default_entries (nk : str) (nms : list member) : list (str * val) :=
+  flat_map (fun m => match m with
+                     | MSub n sub true =>
+                         with_prefix (nk ++ [c_dot] ++ n)
+                           (flat_map (fun o => oentry true {| o_field := o_field o; o_over := None |}) sub)
+                     | _ => []
+                     end) nms.
+
+Definition ms_has_over (ms : list member) : bool :=
+  existsb (fun m => match m with
+                    | MLeaf o => isSome (o_over o)
+                    | MSub _ sub _ => existsb (fun o => isSome (o_over o)) sub
+                    end) ms.
+
+(* _find_action(self, dest): the first non-load action with that dest, else the load action *)
+Definition is_leaf_at (d : str) (r : row) : bool :=
+  str_eqb (r_dest r) d && match r_kind r with KLeaf => true | KGroupLoad => false end.
+Definition is_load_at (d : str) (r : row) : bool :=
+  str_eqb (r_dest r) d && match r_kind r with KLeaf => false | KGroupLoad => true end.
+Definition with_default (r : row) (v : val) : row :=
+  {| r_dest := r_dest r; r_opts := r_opts r; r_ty := r_ty r; r_default := AVal v; r_kind := r_kind r |}.
+
+(* action.default = default  on the action found *)
+Fixpoint set_row_default (d : str) (v : val) (rows : list row) : list row :=
+  match rows with
+  | [] => []
+  | r :: rs => if is_leaf_at d r then with_default r v :: rs else r :: set_row_default d v rs
+  end.
+
+(* set_defaults below a whole-group entry (one nesting level is modelled: a load action met here is an error) *)
+Fixpoint set_defaults1 (rows : list row) (es : list (str * val)) : option (list row) :=
+  match es with
+  | [] => Some rows
+  | e :: es' => if existsb (is_leaf_at (fst e)) rows
+                then set_defaults1 (set_row_default (fst e) (snd e) rows) es'
+                else None                                  (* NSKeyError: No action for key *)
+  end.
+
+(* for dest, default in arg.items(): ... _ActionConfigLoad: self.set_defaults({dest.k: v}); continue *)
+Fixpoint set_defaults (rows : list row) (es : list (str * val)) : option (list row) :=
+  match es with
+  | [] => Some rows
+  | e :: es' =>
+      if existsb (is_leaf_at (fst e)) rows then set_defaults (set_row_default (fst e) (snd e) rows) es'
+      else if existsb (is_load_at (fst e)) rows then
+        match snd e with
+        | VDict l => match set_defaults1 rows (with_prefix (fst e) l) with
+                     | Some rows' => set_defaults rows' es'
+                     | None => None
+                     end
+        | _ => None
+        end
+      else None
+  end.
+
+(* add_class_arguments(Class, nk, default=<mapping>): None = the declaration raises *)
+Definition as_class_group_m (full : bool) (nk : str) (ms : list member) : option table :=
+  let body := flat_map (member_rows nk) ms in
+  let rows0 := create_group nk (negb (Nat.eqb (length ms) 0)) ++ map fst body in
+  let req := map (fun rb => r_dest (fst rb)) (filter snd body) in
+  match set_defaults1 rows0 (member_default_entries nk (mnorm ms)) with
+  | None => None
+  | Some rows1 =>
+      match (if ms_has_over ms then set_defaults rows1 (entries full nk (mnorm ms)) else Some rows1) with
+      | Some rows => Some {| t_rows := rows; t_required := req |}
+      | None => None
+      end
+  end.
+
+(* add_argument("--g", type=DataClass, default=<instance>): the mapping is complete *)
+Definition as_dataclass_m (opt : str) (ms : list member) : option table :=
+  as_class_group_m true (lstrip_dash opt) ms.
+
+(* ---- guards on members ---- *)
+Definition ofields_of (ms : list member) : list ofield :=
+  flat_map (fun m => match m with MLeaf o => [o] | MSub _ sub _ => sub end) ms.
+(* an override is only given to a parameter that has a default (after the signature rules) *)
+Definition overrides_ok (nms : list member) : bool :=
+  forallb (fun o => match o_over o, f_default (o_field o) with Some _, NoDefault => false | _, _ => true end)
+          (ofields_of nms).
+Definition sub_names (ms : list member) : list str :=
+  flat_map (fun m => match m with MLeaf _ => [] | MSub n _ _ => [n] end) ms.
+Definition has_nested (ms : list member) : bool := negb (is_nil (sub_names ms)).
+Definition has_mdef (ms : list member) : bool :=
+  existsb (fun m => match m with MSub _ _ true => true | _ => false end) ms.
+Definition leaves_only (fs : list field) : list member := map (fun f => MLeaf {| o_field := f; o_over := None |}) fs.
+
+Definition ofield_eqb (a b : ofield) : bool :=
+  field_eqb (o_field a) (o_field b) && option_eqb val_eqb (o_over a) (o_over b).
+Definition member_eqb (a b : member) : bool :=
+  match a, b with
+  | MLeaf x, MLeaf y => ofield_eqb x y
+  | MSub n x d, MSub n' y d' => str_eqb n n' && list_eqb ofield_eqb x y && Bool.eqb d d'
+  | _, _ => false
+  end.
